@@ -948,7 +948,7 @@ ROUTINES.update({
     'quantum_shannon_decomposition': 'docstring: 1- and 2-qubit gates and GlobalPhase "preserving global phase": compared EXACTLY; two-qubit gates from {CNOT, CZ} (read as the CZPowGate family: the 2-qubit blocks are synthesised with partial CZs); the docstring warns that accuracy depends on np.linalg.eig and states no bound: atol 1e-8 x 10 = 1e-7; count: the Shende formula (23/48)4^n - (3/2)2^n + 4/3 (3, 20, 100 for n = 2, 3, 4) of the cited algorithm.',
     'decompose_multi_controlled_rotation': 'docstring: equivalent to MatrixGate(matrix).on(target).controlled_by(*controls) (a controlled gate: compared EXACTLY), exclusively 1-qubit, CNOT and CCNOT gates; no tolerance stated: 1e-7.',
     'decompose_multi_controlled_x': 'docstring: multi-controlled X, free qubits end in their initial state (compared EXACTLY with C^n X (x) I), exclusively 1-qubit, CNOT and CCNOT gates; 1e-7.',
-    'prepare_two_qubit_state_using_cz': 'docstring: prepares the state from |00> with at most one CZ: exactly 1 for entangled states, 0 for product states (checked where the smaller Schmidt coefficient is 0 or > 1e-6); a state: up to phase; no tolerance stated: 1e-7.',
+    'prepare_two_qubit_state_using_cz': 'docstring: prepares the state from |00> with at most one CZ: exactly 1 for entangled states, 0 for product states (checked where the smaller Schmidt coefficient is 0 or > 1e-6); a state: up to phase; no tolerance stated and no atol argument; the routine computes its intermediate state in complex64 (epsilon 6e-8, residuals up to 7e-8 measured): 1e-6.',
     'prepare_two_qubit_state_using_sqrt_iswap': 'as above with one SQRT_ISWAP (SQRT_ISWAP_INV by default, use_sqrt_iswap_inv).',
     'prepare_two_qubit_state_using_iswap': 'as above with one ISWAP (ISWAP_INV with use_iswap_inv).',
     'decompose_clifford_tableau_to_operations': 'docstring: one/two-qubit operations that reconstruct the same Clifford tableau: the unitary of the returned operations equals the unitary of the circuit the tableau was built from, up to phase (a tableau has none); exact arithmetic: 1e-8.',
@@ -1039,8 +1039,8 @@ def run_prep(ctx, cirq, mods, conv, checks, routine, opts, name, psi):
     sm = schmidt_min(psi / np.linalg.norm(psi))
     stream = routine + (f'[{",".join(f"{k}={v}" for k, v in opts.items())}]' if opts else '')
     ctx.count(stream, [name, rep['state']], True, sample=dict(input_class=name, operations=[str(o) for o in ops], schmidt_min=sm))
-    checks.append((stream, f'prepares_phase_f {fl(1e-7)} [2; 2]%nat {term} {gates.fvec(psi / np.linalg.norm(psi))}',
-                   f'{stream} on {name}: the prepared state differs from the requested one (up to phase) by more than 1e-7', dict(rep, signature=f'{routine}:reconstruct:{cls(name)}')))
+    checks.append((stream, f'prepares_phase_f {fl(1e-6)} [2; 2]%nat {term} {gates.fvec(psi / np.linalg.norm(psi))}',
+                   f'{stream} on {name}: the prepared state differs from the requested one (up to phase) by more than 1e-6', dict(rep, signature=f'{routine}:reconstruct:{cls(name)}')))
     if sm < 1e-12:
         cnt = f'exact_count {opdescs(ops, native)} 0'
         text = 'a product state must be prepared without entangling gate'
